@@ -193,15 +193,31 @@ void Runner<T, E>::run_impl(Plan const& p, std::vector<std::size_t> const& calls
     std::vector<std::string> texts(P);
     std::vector<char> returned(P, 0);
 
+    // two jobs in one process: the second half of a split world integrates with another generator seed
+    // and writes to a file of its own (two integrations of one program running side by side)
+    bool const two_jobs = ctl.two_jobs && split > 0 && base == 0;
+    std::unique_ptr<Runner> other;
+    RunCtl ctl1 = ctl;
+    if (two_jobs)
+    {
+        other.reset(new Runner(nt_, eng_));
+        Plan q1 = p;
+        q1.eseed = p.eseed + 1;
+        other->fresh(q1);
+        ctl1.filename = ctl.filename + ".g1";
+    }
+
     w.run([&](int r) {
         MPI_Comm const comm = (split > 0) ? 100 + w.ranks[r].color : MPI_COMM_WORLD;
+        bool const second = two_jobs && w.ranks[r].color == 1;
+        RunCtl const& cr = second ? ctl1 : ctl;
         // every rank owns private copies of user code and checkpoint, as separate processes would
         if (integ_ == PLAIN)
         {
             PI in(pf, p.dims, params);
-            PChk start(*pc_);
+            PChk start(second ? *other->pc_ : *pc_);
             pres[r].reset(new PChk(hep::mpi_plain(comm, in, calls, start,
-                SimMpiCallback<PChk>(ctl))));
+                SimMpiCallback<PChk>(cr))));
             ctx().counting = false;
             std::ostringstream o;
             pres[r]->serialize(o);
@@ -210,9 +226,9 @@ void Runner<T, E>::run_impl(Plan const& p, std::vector<std::size_t> const& calls
         else if (integ_ == VEGAS)
         {
             VI in(vf, p.dims, params);
-            VChk start(*vc_);
+            VChk start(second ? *other->vc_ : *vc_);
             vres[r].reset(new VChk(hep::mpi_vegas(comm, in, calls, start,
-                SimMpiCallback<VChk>(ctl))));
+                SimMpiCallback<VChk>(cr))));
             ctx().counting = false;
             std::ostringstream o;
             vres[r]->serialize(o);
@@ -221,9 +237,9 @@ void Runner<T, E>::run_impl(Plan const& p, std::vector<std::size_t> const& calls
         else
         {
             MI in(mf, p.dims, mm, p.mapd ? p.mapd : p.dims, p.chan, params);
-            MChk start(*mc_);
+            MChk start(second ? *other->mc_ : *mc_);
             mres[r].reset(new MChk(hep::mpi_multi_channel(comm, in, calls, start,
-                SimMpiCallback<MChk>(ctl))));
+                SimMpiCallback<MChk>(cr))));
             ctx().counting = false;
             std::ostringstream o;
             mres[r]->serialize(o);
